@@ -61,6 +61,18 @@ checks = {
    technique="stateless model checking of the implementation: controlled cooperative scheduler over every sync/atomic/singleflight/pool operation of coraza (selector-redirected shims) plus a point between API calls, depth-first enumeration of all interleavings up to a preemption bound, each execution run under the Go race detector with a hand-off the detector cannot see; per-thread outcome oracle against sequential runs",
    text="2-3 threads (two transactions on a shared WAF, a thread building/closing a second WAF that shares patterns, first transactions of a freshly built WAF) are explored under every schedule within the preemption bound in the default and the multiphase build: no race report, no deadlock, no panic, every thread's outcome and the audit records equal the sequential outcomes. The engine self-tests in every run (lost update found, unprotected counter reported, mutex-protected counter silent, lock inversion = deadlock).",
    note="Trusted: scheduling points = synchronisation operations of the module + API-call boundaries; code between them is atomic for the scheduler and its unsynchronised accesses are the race detector's job (incidental synchronisation inside fmt/reflect can hide a race in some schedules; pausing threads between API calls is what exposes them). Bounds: preemptions 2-3 (quick) / 3-4 (thorough), 3 threads, one transaction per thread. One open known finding (multiphase build only)."),
+ "C03": dict(level="exploration", design="§3 C03", engine="mc + independent encoders",
+   technique="exhaustive enumeration of (name,value) lists over a 13-symbol adversarial alphabet encoded by independent encoders into query string, headers, cookies, urlencoded / multipart / JSON / XML bodies under argument-limit, body-access, body-limit and processor settings, executed on the real transaction (under every map order at the populating sites for multi-name cases) and read back through @unconditionalMatch rules and the variable dump",
+   text="For every generated case the multiset of (name,value) under each documented variable must equal what was sent (decoded exactly once, nothing merged, dropped or attributed to another name) unless an error variable or interruption says so.",
+   note="Trusted: the encoders in go/c03 (independent of coraza's parsers; stdlib mime/multipart and encoding/json as writers). Not asserted: REQUEST_URI when net/url re-encodes, REQUEST_BODY for non-urlencoded bodies, escaped paths. Two open known findings (arguments over SecArgumentsLimit dropped silently; JSON duplicate/flattening-colliding keys keep one value)."),
+ "C11": dict(level="exploration", design="§3 C11", engine="differential enumeration",
+   technique="exhaustive enumeration of regex ASTs (sizes 1-4 full atom set + size 5 reduced, thorough 1-5 + 6) plus every @rx pattern of the bundled CRS, each against all inputs up to length 3-4 over the pattern's own alphabet plus AST-derived inputs; differential oracle: the real @rx operator factory with RxPreFilterEnabled on vs off (verdict and TX.0-9), repeated through two full WAFs differing only in SecRxPreFilter, in the default and the no_regex_multiline build",
+   text="Turning the prefilter on must never change a verdict or a captured group for any enumerated (pattern, input); a build difference (one side rejects a pattern) is a violation too.",
+   note="Trusted: nothing beyond the operator with the prefilter off as reference. Not covered: atoms outside the set (lazy quantifiers, \\b, negated classes) except where CRS uses them; cache-key leaks (C13). One open known finding (trie reconstruction joins a prefix to a non-adjacent literal)."),
+ "C16": dict(level="exploration", design="§3 C16", engine="enumeration + secmodel signature",
+   technique="exhaustive enumeration of structured rule descriptions (target / operator-argument / action-value axes over delimiter-rich alphabets) x equivalent renderings (case, quoting, spacing, continuations at every token boundary, CRLF, comments, Include / nested / glob file splitting, final newline, 70 kB lines) x single-delimiter deletions and duplications; every text compiled by the real parser and characterised by a behavioural signature (rule observer metadata + probe battery) compared with the signature derived from the description",
+   text="All renderings of one description must compile to the description's signature; a near-miss text must either be rejected or compile to exactly what a strict reference reader makes of it - never silently to something else or to fewer rules.",
+   note="Trusted: the reference reader and signature derivation in go/c16. Not covered: raw double quotes and backslashes in action values, chains, SecDefaultAction, XPath keys. Two open known findings (slash inside a plain key turns it into a regex; an unclosed single quote in the action list only warns)."),
 }
 not_applicable = {}
 
